@@ -8,6 +8,10 @@ CLAIMED = {
    text="Machine-checked proof (Lean 4) that the model of adfDays2Date/adfTime2AmigaTime are exact inverses and agree with an independent Gregorian calendar for every date from 1978 with no upper bound; the model is tied to the C code by an exhaustive differential run (every day 0..45000, every date 1978..2100 x 4 times of day) and by dates stamped on real entries under a scripted clock.",
    note="Trusted: Lean kernel; axioms propext, Classical.choice, Quot.sound; the hand-written model AdfModel/Util.lean (tied to C only on the exhaustively enumerated range); C locale; clock replaced by link-time wrap. Negative day counts (hostile images only) are not modelled.",
    technique="Lean 4 proof (induction over year/month loops) + exhaustive C-vs-model correspondence", design="5/C16"),
+ "C20": dict(
+   text="Machine-checked proof (Lean 4) that for ALL byte strings path/name and every extraction directory, every path unadf's output_name hands to mkdir/open/utimes is <extract_dir>/ followed by a relative part that never leaves its start directory (no '..' component survives, no leading separator), including every intermediate directory it creates. Tied to examples/unadf.c by running the real output_name (linked into the harness) against the model on ~17k (quick) enumerated and random triples, and by running the real unadf binary on images with hostile names in a sandbox tree with sentinels.",
+   note="Partial on the OS side by nature: the theorem is lexical; symlinks or a pre-populated destination are outside the model (unadf creates no symlinks). Trusted: Lean kernel; axioms propext, Quot.sound; the hand model AdfModel/Unadf.lean (POSIX build, no -w); extract_tree/extract_filepath call structure is covered by the sandbox runs only.",
+   technique="Lean 4 proof over a model of output_name + differential run against the real function + sandboxed runs of the real binary", design="5/C20"),
 }
 NA_REASON = "check not built yet in this snapshot (work in progress; see DESIGN.md section 5)"
 def main():
